@@ -2,20 +2,26 @@
    the *_Final* functions of alg/sha256.c, alg/sha1.c, alg/md5.c (Gen/Repo_hash.v: hash_final_fns)
    and of the struct layouts regenerated from the headers (hash_structs).
 
+   The translator READS each statement (or refuses the whole file, in which case the pinned output
+   is used and the byte-level observation of the binary alone decides): it says which object an
+   argument denotes - the context object, one of its fields, or no part of it - after resolving
+   parentheses, pointer casts and single-assignment temporaries, and gives every wipe size as a
+   product of factors: integer literals, sizeof(T) (also for sizeof( *p ) through p's declared
+   pointee type, sizeof(local array) = sizeof(element) * n, sizeof(ctx->f)), sizeof(a pointer).
+   This file gives those readings their MEANING, by VALUE: sizes and field offsets are computed
+   from the regenerated layouts (natural alignment, LP64 scalar sizes below).
+
    The interpreter computes, for one function, which LEAF FIELDS of its context object are known
    to hold only zero bytes when the function returns (the "zero set", a list of field paths):
      - nothing is known on entry;
-     - a statement that is not a plain call (conditional, loop, assignment, return ...) forgets
-       everything (the model cannot know what it did, nor whether later statements are reached);
-     - insecure_memzero(O, SZ): if O denotes the context object or one of its fields (texts
-       `ctx`, `&ctx->f`, `ctx->f` for the function's own parameter name) AND SZ is textually
-       sizeof(<the struct / element type of that object>) for a single element, or sizeof( *ctx )
-       for the whole object, every leaf under O becomes zero.  Any other size text (a literal, the
-       size of the POINTER sizeof(ctx), another type) zeroes nothing: the model cannot know how much
-       of the object it covers;
+     - a guarded wipe (kind 1: it may not run) forgets everything;
+     - insecure_memzero(O, SZ) with O the context object or one of its fields: every leaf that lies
+       wholly inside the first min(SZ, size of O) bytes of O becomes zero - so a size >= the object's
+       size covers it, the size of a pointer (8) or any smaller size does not; with O no part of
+       the context (stack scratch, another parameter): no effect, wherever it stands in the body;
      - a call of another function of the regenerated table (an inner XXX_Final / XXX_Final_internal)
-       on a sub-object of the right struct type: the sub-object first loses what was known about it
-       (the callee computes in it), then gains the callee's own zero set (computed recursively);
+       on the context or a field of the callee's context type: that sub-object first loses what was
+       known about it (the callee computes in it), then gains the callee's zero set (recursively);
      - any other call (XXX_Pad, XXX_Update, be32enc_vect ...): every argument that denotes the
        context or one of its fields loses what was known about it.
    The final functions of the models (HashRepo.v) zero a field of the context the computation left
@@ -28,9 +34,11 @@ Local Open Scope string_scope.
 
 Definition wfield : Type := (string * string * N)%type.          (* element type, name, element count *)
 Definition wstructs : Type := list (string * list wfield).
-Definition wstmt : Type := (N * string * list string)%type.      (* 0 = plain call f(args); else opaque *)
+Definition wobj : Type := (N * string)%type.                      (* 0 the context, 1 its field f, else none of it *)
+Definition wfactor : Type := (N * string * N)%type.               (* 0 literal n, 1 sizeof(T), 2 sizeof(pointer) *)
+Definition wstmt : Type := (N * string * list wobj * list wfactor)%type.
 Definition wfn : Type := (string * (string * string * N) * list wstmt)%type.
-                                                                  (* name, (ctx struct, ctx parameter, its position), body *)
+                                                                  (* name, (ctx struct, ctx name, its position), body *)
 Definition wpath : Type := list string.                           (* field names from the context object down *)
 
 Fixpoint wlookup {A : Type} (k : string) (l : list (string * A)) : option A :=
@@ -57,65 +65,132 @@ Fixpoint wprefix (p q : wpath) : bool :=
   | _ :: _, [] => false
   end.
 
-(* the leaf fields of an object of type T (a type that is not a listed struct is a leaf) *)
-Fixpoint wleaves (fuel : nat) (L : wstructs) (T : string) : list wpath :=
-  match fuel with
-  | O => [[]]
-  | Datatypes.S f =>
-    match wlookup T L with
-    | None => [[]]
-    | Some fs => flat_map (fun fd : wfield => let '(ft, fname, _) := fd in map (cons fname) (wleaves f L ft)) fs
+(* scalar sizes (= alignments) of the LP64 target the correspondence run compiles for *)
+Definition wprim : list (string * N) :=
+  [("char", 1%N); ("unsigned char", 1%N); ("uint8_t", 1%N); ("uint16_t", 2%N); ("uint32_t", 4%N);
+   ("int", 4%N); ("unsigned int", 4%N); ("uint64_t", 8%N); ("size_t", 8%N)].
+Definition wptr_size : N := 8%N.
+
+Definition wround_up (x a : N) : N := ((x + a - 1) / a * a)%N.
+
+(* (size, alignment) of type T; None if T is neither a scalar above nor a listed struct *)
+Fixpoint wsizeof (fuel : nat) (L : wstructs) (T : string) : option (N * N) :=
+  match wlookup T wprim with
+  | Some s => Some (s, s)
+  | None =>
+    match fuel with
+    | O => None
+    | Datatypes.S f =>
+      match wlookup T L with
+      | None => None
+      | Some fs =>
+        match fold_left (fun (acc : option (N * N)) (fd : wfield) =>
+                           let '(ft, _, cnt) := fd in
+                           match acc, wsizeof f L ft with
+                           | Some (off, al), Some (s, a) => Some ((wround_up off a + s * cnt)%N, N.max al a)
+                           | _, _ => None
+                           end) fs (Some (0%N, 1%N)) with
+        | Some (off, al) => Some (wround_up off al, al)
+        | None => None
+        end
+      end
     end
   end.
 
-(* what the argument text e denotes in a function whose context parameter is  T * p :
-   (path, element type, element count) *)
-Definition wresolve (L : wstructs) (T p e : string) : option (wpath * string * N) :=
-  if e =? p then Some ([], T, 1%N)
-  else
-    match wlookup T L with
-    | None => None
-    | Some fs =>
-      fold_right (fun (fd : wfield) (rest : option (wpath * string * N)) =>
-                    let '(ft, fname, cnt) := fd in
-                    if (e =? "&" ++ p ++ "->" ++ fname) || (e =? p ++ "->" ++ fname)
-                    then Some ([fname], ft, cnt) else rest) None fs
-    end.
+(* the fields of struct T with their offsets: (element type, name, count, offset, total size) *)
+Definition wfields_at (L : wstructs) (T : string) : list (string * string * N * N * N) :=
+  match wlookup T L with
+  | None => []
+  | Some fs =>
+    snd (fold_left (fun (acc : N * list (string * string * N * N * N)) (fd : wfield) =>
+                      let '(ft, fname, cnt) := fd in
+                      match wsizeof 8 L ft with
+                      | Some (s, a) => let o := wround_up (fst acc) a in
+                                       ((o + s * cnt)%N, app (snd acc) [(ft, fname, cnt, o, (s * cnt)%N)])
+                      | None => acc
+                      end) fs (0%N, []))
+  end.
 
-(* does the size text cover the whole of the object (e : ty[cnt]) ? *)
-Definition wsize_covers (p e ty : string) (cnt : N) (sz : string) : bool :=
-  ((cnt =? 1)%N && (sz =? "sizeof(" ++ ty ++ ")")) || ((e =? p) && (sz =? "sizeof(*" ++ p ++ ")")).
+(* the leaf fields of an object of type T placed at offset base: (path, offset, size).  A field of a
+   scalar type (an array of them included) is one leaf; a single field of a listed struct type is
+   descended into; arrays of structs and unknown types have no leaves (nothing can be claimed). *)
+Fixpoint wleaves_at (fuel : nat) (L : wstructs) (T : string) (base : N) : list (wpath * N * N) :=
+  match fuel with
+  | O => []
+  | Datatypes.S f =>
+    flat_map (fun fd : string * string * N * N * N =>
+                let '(ft, fname, cnt, o, sz) := fd in
+                match wlookup ft wprim with
+                | Some _ => [([fname], (base + o)%N, sz)]
+                | None => if (cnt =? 1)%N
+                          then map (fun lf : wpath * N * N => let '(pa, lo, ls) := lf in (fname :: pa, lo, ls))
+                                   (wleaves_at f L ft (base + o)%N)
+                          else []
+                end) (wfields_at L T)
+  end.
+
+Definition wleaves (L : wstructs) (T : string) : list wpath :=
+  map (fun lf : wpath * N * N => fst (fst lf)) (wleaves_at 8 L T 0%N).
+
+(* value of a size: the product of its factors; None if a type is unknown *)
+Fixpoint wsize_value (L : wstructs) (fs : list wfactor) : option N :=
+  match fs with
+  | [] => Some 1%N
+  | (k, T, n) :: r =>
+    match (if (k =? 0)%N then Some n
+           else if (k =? 1)%N then option_map fst (wsizeof 8 L T)
+           else if (k =? 2)%N then Some wptr_size else None), wsize_value L r with
+    | Some a, Some b => Some (a * b)%N
+    | _, _ => None
+    end
+  end.
+
+(* where an object lies inside a context of struct type T: (path, type, count, offset, size) *)
+Definition wlocate (L : wstructs) (T : string) (o : wobj) : option (wpath * string * N * N * N) :=
+  let '(k, f) := o in
+  if (k =? 0)%N then
+    match wsizeof 8 L T with Some (s, _) => Some ([], T, 1%N, 0%N, s) | None => None end
+  else if (k =? 1)%N then
+    fold_right (fun (fd : string * string * N * N * N) rest =>
+                  let '(ft, fname, cnt, off, sz) := fd in
+                  if f =? fname then Some ([fname], ft, cnt, off, sz) else rest) None (wfields_at L T)
+  else None.
 
 Definition wforget (pa : wpath) (Z : list wpath) : list wpath := filter (fun q => negb (wprefix pa q)) Z.
 
-Definition wforget_args (L : wstructs) (T p : string) (args : list string) (Z : list wpath) : list wpath :=
-  fold_left (fun Z a => match wresolve L T p a with Some (pa, _, _) => wforget pa Z | None => Z end) args Z.
+Definition wforget_args (L : wstructs) (T : string) (args : list wobj) (Z : list wpath) : list wpath :=
+  fold_left (fun Z a => match wlocate L T a with Some (pa, _, _, _, _) => wforget pa Z | None => Z end) args Z.
 
-Definition wstep (callee_zero : string -> list wpath) (L : wstructs) (F : list wfn) (T p : string)
+(* the leaves of the context (of type T) that lie wholly inside [off, off + len) *)
+Definition wleaves_within (L : wstructs) (T : string) (off len : N) : list wpath :=
+  map (fun lf : wpath * N * N => fst (fst lf))
+      (filter (fun lf : wpath * N * N => let '(_, lo, ls) := lf in (off <=? lo)%N && (lo + ls <=? off + len)%N)
+              (wleaves_at 8 L T 0%N)).
+
+Definition wstep (callee_zero : string -> list wpath) (L : wstructs) (F : list wfn) (T : string)
                  (Z : list wpath) (st : wstmt) : list wpath :=
-  let '(kind, callee, args) := st in
-  if negb (kind =? 0)%N then []
-  else if callee =? "insecure_memzero" then
+  let '(kind, callee, args, size) := st in
+  if (kind =? 2)%N then
     match args with
-    | [o; sz] =>
-      match wresolve L T p o with
-      | Some (pa, ty, cnt) =>
-        if wsize_covers p o ty cnt sz then app (map (app pa) (wleaves 8 L ty)) Z else Z
-      | None => Z
+    | [o] =>
+      match wlocate L T o, wsize_value L size with
+      | Some (_, _, _, off, osz), Some n => app (wleaves_within L T off (N.min n osz)) Z
+      | _, _ => Z
       end
     | _ => Z
     end
-  else
-    let Z1 := wforget_args L T p args Z in
+  else if (kind =? 0)%N then
+    let Z1 := wforget_args L T args Z in
     match wlookup_fn callee F with
     | Some ((cT, _, ci), _) =>
-      match wresolve L T p (nth (N.to_nat ci) args "") with
-      | Some (pa, ty, cnt) =>
+      match wlocate L T (nth (N.to_nat ci) args (2%N, "")) with
+      | Some (pa, ty, cnt, _, _) =>
         if (ty =? cT) && (cnt =? 1)%N then app (map (app pa) (callee_zero callee)) Z1 else Z1
       | None => Z1
       end
     | None => Z1
-    end.
+    end
+  else [].
 
 (* the zero set of the context object of function fname when it returns *)
 Fixpoint wzero_after (fuel : nat) (L : wstructs) (F : list wfn) (fname : string) : list wpath :=
@@ -124,7 +199,7 @@ Fixpoint wzero_after (fuel : nat) (L : wstructs) (F : list wfn) (fname : string)
   | Datatypes.S f =>
     match wlookup_fn fname F with
     | None => []
-    | Some ((T, p, _), body) => fold_left (wstep (wzero_after f L F) L F T p) body []
+    | Some ((T, _, _), body) => fold_left (wstep (wzero_after f L F) L F T) body []
     end
   end.
 
@@ -134,7 +209,9 @@ Definition wcovered (Z : list wpath) (q : wpath) : bool := existsb (wpath_eqb q)
 Definition wipes_whole_ctx (L : wstructs) (F : list wfn) (fname : string) : bool :=
   match wlookup_fn fname F with
   | None => false
-  | Some ((T, _, _), _) => forallb (wcovered (wzero_after 8 L F fname)) (wleaves 8 L T)
+  | Some ((T, _, _), _) =>
+    negb (N.of_nat (List.length (wleaves L T)) =? 0)%N &&
+    forallb (wcovered (wzero_after 8 L F fname)) (wleaves L T)
   end.
 
 (* ---- applying a zero set to the model's context records (pre = path of the record inside the
